@@ -90,10 +90,11 @@ def check(an, rep, tier):
                 if rv.k != 'list':
                     continue
                 st, detail = tt_wellformed(rv, None)
+                n_t = 1 if 'ttlist1' in r.variant.values() else 2
                 if q in ('act_two.outer', 'act_many.outer_many') and \
-                        st == 'ok' and len(rv.items) != 2 * d:
+                        st == 'ok' and len(rv.items) != n_t * d:
                     st, detail = 'violation', 'outer product has %d cores, ' \
-                        'expected %d' % (len(rv.items), 2 * d)
+                        'expected %d' % (len(rv.items), n_t * d)
                 rep.add('S-ret', q, 'return path %d of %s' % (j, r.tag()),
                         st, detail)
         elif q == 'act_one.interface' and \
